@@ -614,7 +614,7 @@ def memo_checks(ctx, P, count):
         nmax = 2 if kind == 'en' else 4
         sents = [make_sentence(rng, f'c{tries}.{i}', K, rng.randint(1, nmax)) for i in range(rng.randint(1, 4))]
         kw = dict(unary_penalty=rng.choice([0, 1]) / 8.0, use_beta=False, pruning_size=2 if kind == 'en' else rng.choice([2, 3, 50]), nbest=rng.choice([1, 2, 3]),
-                  max_chunk_size=100, max_length=rng.choice([250, 250, 2]), max_step=rng.choice([10000000, 10000000, rng.randint(2, 30)]))
+                  max_chunk_size=100, max_length=rng.choice([250, 250, 2]), max_step=rng.choice([300000, 300000, rng.randint(2, 30)]))
         _LOG = []
         try:
             res, rec = call_run(P, sents, cats, roots, binary, unary, kw, record=True)
